@@ -439,9 +439,164 @@ def check_step(case, rec):
         rec.label('outcome:returned'); rec.nontrivial = case['nsteps'] >= 2
 
 
+# ---- systems with several unknowns ---------------------------------------------------------------------------------------------
+
+@st.composite
+def coupled_cases(draw, tier):
+    n = draw(st.integers(1, 3))
+    return dict(n=n, A=[draw(st.sampled_from(V)) for _ in range(n * n)], B=[draw(st.sampled_from(V)) for _ in range(n * n)], fa=[draw(st.sampled_from(V)) for _ in range(n)], fb=[draw(st.sampled_from(V)) for _ in range(n)],
+                kab=draw(st.sampled_from([0., 0., .5, 1., -.5])), kba=draw(st.sampled_from([0., .5, 1.])), self_nl=draw(st.sampled_from([0., 0., .25])),
+                method=draw(st.sampled_from(['default', 'Newton', 'LinesearchNewton', 'Direct', 'legacy-newton', 'solve_constraints'])), tol=draw(st.sampled_from([1e-10, 1e-8])),
+                a0=[draw(st.sampled_from(V)) for _ in range(n)] if draw(st.booleans()) else None, cons=draw(st.sampled_from(['none', 'none', 'a-first'])))
+
+
+def check_coupled(case, rec):
+    """two unknown vectors a, b coupled through products of different unknowns (a*b): whatever is returned must make the TRUE residual small"""
+    from nutils import function, solver, matrix
+    import treelog
+    n = case['n']
+    A = numpy.array(case['A']).reshape(n, n); A = A + numpy.diag(abs(A).sum(1) + 2)
+    B = numpy.array(case['B']).reshape(n, n); B = B + numpy.diag(abs(B).sum(1) + 2)
+    fa = numpy.array(case['fa']); fb = numpy.array(case['fb'])
+    kab, kba, snl = case['kab'], case['kba'], case['self_nl']
+    def true_res(a, b):
+        return numpy.concatenate([A @ a + kab * a * b + snl * a ** 3 - fa, B @ b + kba * a * b - fb])
+    with warnings.catch_warnings(), treelog.set(treelog.NullLog()), numpy.errstate(all='ignore'):
+        warnings.simplefilter('ignore')
+        a = function.Argument('a', (n,)); b = function.Argument('b', (n,))
+        ra = (function.Array.cast(A) * a[None, :]).sum(1) + kab * a * b + snl * a ** 3 - fa
+        rb = (function.Array.cast(B) * b[None, :]).sum(1) + kba * a * b - fb
+        linear = not (kab or kba or snl)
+        S = solver.System([ra, rb], trial='a,b')
+        args = {} if case['a0'] is None else dict(a=numpy.array(case['a0']))
+        cons = {}
+        prescribed = {}
+        if case['cons'] == 'a-first':
+            c = numpy.full(n, numpy.nan); c[0] = .75; cons = dict(a=c); prescribed = {0: .75}
+        m = case['method']
+        try:
+            if m == 'default': sol = S.solve(arguments=args, constrain=cons, tol=case['tol'])
+            elif m == 'Newton': sol = S.solve(arguments=args, constrain=cons, tol=case['tol'], method=solver.Newton(), maxiter=60)
+            elif m == 'LinesearchNewton': sol = S.solve(arguments=args, constrain=cons, tol=case['tol'], method=solver.LinesearchNewton(), maxiter=60)
+            elif m == 'Direct': sol = S.solve(arguments=args, constrain=cons, method=solver.Direct())
+            elif m == 'solve_constraints':
+                sol = S.solve_constraints(droptol=1e-12, arguments=args, constrain=cons)
+                if not linear:
+                    raise Violation('nonlinear-accepted', f'solve_constraints accepted a system that is nonlinear through a*b (kab={kab}, kba={kba}, self={snl})', where='coupled:solve_constraints')
+                rec.label('coupled:solve_constraints'); rec.nontrivial = True
+                return
+            else:
+                sol = solver.newton('a,b', [ra, rb], arguments=args, constrain=cons or None).solve(case['tol'], maxiter=60)
+        except (solver.SolverError, matrix.MatrixError):
+            rec.label('coupled:outcome:error'); rec.nontrivial = True
+            return
+        except ValueError as e:
+            if 'not linear' in str(e) or 'strictly positive' in str(e):
+                if m in ('Direct', 'solve_constraints') and linear:
+                    raise Violation('solve-raised', f'{m} rejected a linear two-field system: {e}', where='coupled:rejected-linear')
+                rec.label('coupled:outcome:rejected'); return
+            raise Violation('solve-raised', f'{m}: ValueError: {str(e)[:200]}', where='coupled:ValueError')
+        except Exception as e:
+            raise Violation('solve-raised', f'{m}: {type(e).__name__}: {str(e)[:200]}', where='coupled:' + type(e).__name__)
+        if m == 'Direct' and not linear:
+            raise Violation('nonlinear-accepted', f'the Direct method solved a system that is nonlinear through products of different unknowns (kab={kab}, kba={kba}, self={snl})', where='coupled:direct-nonlinear')
+        av, bv = numpy.asarray(sol['a']), numpy.asarray(sol['b'])
+        if not (numpy.isfinite(av).all() and numpy.isfinite(bv).all()):
+            raise Violation('nonfinite-solution', f'{m}: {av.tolist()} {bv.tolist()}', where='coupled:nonfinite')
+        for i, v in prescribed.items():
+            if av[i] != v: raise Violation('constraint-violated', f'{m}: a[{i}]={av[i]} prescribed {v}', where='coupled:constraint')
+        r = true_res(av, bv)
+        free = numpy.ones(2 * n, dtype=bool)
+        for i in prescribed: free[i] = False
+        rn = numpy.linalg.norm(r[free])
+        tol = case['tol'] if m != 'Direct' else 1e-9
+        if rn > tol * 1.01 + 1e-11 * (1 + abs(fa).max() + abs(fb).max()):
+            raise Violation('unconverged-returned', f'{m} on the two-field system (kab={kab}, kba={kba}, self={snl}, linear={linear}) returned a={av.tolist()} b={bv.tolist()} whose true residual norm is {rn:.3e} (tol {tol})', where='coupled:residual:' + m)
+    rec.nontrivial = not linear
+    rec.label('coupled:' + m, 'coupled:linear' if linear else 'coupled:cross-nonlinear' if not snl else 'coupled:self-nonlinear')
+
+
+# ---- Topology.project: constraint vectors built boundary by boundary ----------------------------------------------------------------
+
+@st.composite
+def project_cases(draw, tier):
+    steps = [dict(side=draw(st.sampled_from(['left', 'right', 'top', 'bottom'])), f=draw(st.sampled_from(['zero', 'zero', 'one', 'linear', 'x', 'zero-expr'])), ptype=draw(st.sampled_from(['lsqr', 'lsqr', 'lsqr', 'convolute', 'nodal'])))
+             for _ in range(draw(st.integers(1, 4)))]
+    return dict(n=[draw(st.integers(1, 3)), draw(st.integers(1, 3))], degree=draw(st.integers(1, 2)), steps=steps, vector=draw(st.booleans()))
+
+
+def check_project(case, rec):
+    """a constraint vector is built by projecting onto one boundary after the other, each call receiving the previous vector: entries prescribed
+    earlier keep their value exactly, entries of functions without support on the boundary stay NaN, and (std basis, function in the space)
+    the new entries are the nodal values of the function"""
+    from nutils import mesh, function
+    import treelog
+    with warnings.catch_warnings(), treelog.set(treelog.NullLog()):
+        warnings.simplefilter('ignore')
+        topo, x = mesh.rectilinear([numpy.linspace(0, 1, k + 1) for k in case['n']])
+        basis = topo.basis('std', degree=case['degree'])
+        if case['vector']:
+            onto = basis.vector(2)
+        else:
+            onto = basis
+        nd = len(onto)
+        cons = None
+        history = []
+        for si, st_ in enumerate(case['steps']):
+            fs = {'zero': 0., 'one': 1., 'linear': 1 + x[0] + 2 * x[1], 'x': x[0], 'zero-expr': x[0] * 0}[st_['f']]
+            fun = function.Array.cast(fs)
+            if case['vector']: fun = numpy.stack([fun, -fun])
+            bnd = topo.boundary[st_['side']]
+            kw = dict(onto=onto, geometry=x, ptype=st_['ptype'], degree=2 * case['degree'])
+            if st_['ptype'] == 'nodal': kw.pop('degree')
+            try:
+                new = bnd.project(fun, constrain=consobj, **kw) if cons is not None else bnd.project(fun, **kw)
+            except NotImplementedError:
+                raise Discard('ptype-not-available')
+            except Exception as e:
+                if st_['ptype'] != 'lsqr': raise Discard('ptype-not-applicable')
+                raise Violation('project-raised', f'step {si} {st_}: {type(e).__name__}: {str(e)[:200]}', where='project:' + type(e).__name__)
+            consobj_new = new
+            new = numpy.array(new, dtype=float)      # a copy for the comparisons; the NanVec itself is handed to the next call
+            if new.shape != (nd,):
+                raise Violation('project-shape', f'{new.shape} != ({nd},)', where='project:shape')
+            # support on this boundary: functions that do not vanish identically there
+            vals = numpy.asarray(bnd.sample('bezier', 3).eval(onto))
+            vals = abs(vals).reshape(len(vals), nd, -1).max(2).max(0)
+            supp = vals > 1e-12
+            if cons is not None:
+                had = ~numpy.isnan(cons)
+                if not numpy.array_equal(new[had], cons[had]):
+                    bad = numpy.nonzero(had & ~(new == cons))[0]
+                    raise Violation('constraint-overwritten', f'step {si} {st_} after {history}: entries {bad.tolist()} prescribed earlier changed from {cons[bad].tolist()} to {new[bad].tolist()}', where='project:overwritten:' + st_['ptype'])
+            else:
+                had = numpy.zeros(nd, dtype=bool)
+            stale = ~supp & ~had & ~numpy.isnan(new)
+            if stale.any():
+                raise Violation('constraint-invented', f'step {si} {st_}: entries {numpy.nonzero(stale)[0].tolist()} of functions without support on the boundary were prescribed: {new[stale].tolist()}', where='project:invented')
+            missing = supp & numpy.isnan(new)
+            if missing.any() and st_['ptype'] == 'lsqr':
+                raise Violation('constraint-missing', f'step {si} {st_}: functions {numpy.nonzero(missing)[0].tolist()} with support on the boundary were left undetermined', where='project:missing')
+            # value check: the projected function lies in the trace space (degree >= 1, functions of degree <= 1): the boundary trace of the constrained field equals it
+            if st_['ptype'] == 'lsqr':
+                newly = supp & ~had
+                trial = numpy.where(numpy.isnan(new), 0., new)
+                field = (onto * trial[(slice(None),) + (None,) * (onto.ndim - 1)]).sum(0) if onto.ndim > 1 else onto @ trial
+                if not (had & supp).any():      # no earlier boundary shares dofs with this one: the trace must reproduce the function
+                    err = numpy.asarray(bnd.sample('gauss', 2).eval(field - fun))
+                    if abs(err).max() > 1e-9:
+                        raise Violation('projection-wrong', f'step {si} {st_}: trace of the constrained field differs from the projected function by {abs(err).max():.3e}', where='project:value')
+            cons = new; consobj = consobj_new
+            history.append([st_['side'], st_['f'], st_['ptype']])
+    rec.nontrivial = len(case['steps']) >= 2
+    rec.label('project:steps=%d' % len(case['steps']), *('project:' + s_['ptype'] for s_ in case['steps']), *(['project:zero-after-nonzero'] if any(a['f'] in ('one', 'linear', 'x') and b['f'].startswith('zero') for a, b in zip(case['steps'], case['steps'][1:])) else []))
+
+
 SUBS = [Sub('matrix', matrix_cases, check_matrix, {'quick': 2500, 'thorough': 40000}, weight=3),
         Sub('system', system_cases, check_system, {'quick': 150, 'thorough': 3000}, weight=3, timeout=120),
-        Sub('step', step_cases, check_step, {'quick': 40, 'thorough': 800}, weight=1, timeout=120)]
+        Sub('step', step_cases, check_step, {'quick': 40, 'thorough': 800}, weight=1, timeout=120),
+        Sub('coupled', coupled_cases, check_coupled, {'quick': 100, 'thorough': 2000}, weight=1, timeout=120),
+        Sub('project', project_cases, check_project, {'quick': 60, 'thorough': 1200}, weight=1, timeout=120)]
 
 def _uncertified_zero_tol(case, v):
     # atol=rtol=0 with the (default) arnoldi solver: the iterate at which the iteration stagnated is returned unchecked
